@@ -106,3 +106,58 @@ package asr
 //@     invariant [child_keeps_exactly_the_states_shared_with_the_node_at_this_site] forall k int :: {seqs[child.id].seq[j].counts[k]} 0 <= k && k < len(charToIndex) ==> seqs[child.id].seq[j].counts[k] == (k <= rangeindex ? (lold(seqs[child.id].seq[j].counts[k]) + lold(ances.counts[k]) > 1.0 ? 1.0 : 0.0) : lold(seqs[child.id].seq[j].counts[k]))
 //@     invariant [table_shape] siteok(seqs, cur.id, child.id, len(charToIndex)) && ances.counts == seqs[cur.id].seq[j].counts && 0 <= j && j < len(seqs[cur.id].seq) && !fresh_arr(ances.counts) && !fresh_arr(seqs[child.id].seq[j].counts)
 //@     invariant [node_untouched] forall k int :: {ances.counts[k]} 0 <= k && k < len(charToIndex) ==> ances.counts[k] == lold(ances.counts[k])
+
+// ParsimonyAsr (property C12): the alphabet is the alignment's alphabet followed by the gap and the "other" character and
+// character k of it gets index k; node i of the node list gets identifier i and a sequence of the alignment's length over
+// that alphabet in both tables; the up-pass runs from the root; then exactly the passes of the requested algorithm, in
+// their order, from the root, resolving at random only in the last one; an unknown algorithm is an error
+//@ func asr.ParsimonyAsr
+//@   flag noframe
+//@   flag countcalls
+//@   requires t != nil && itag(a) != 0
+//@   call (*tree.Node).SetId [node_i_of_the_list_gets_identifier_i] a0 == nodes[rangeindex + 1] && a1 == rangeindex + 1
+//@   call asr.NewAncestralSequence [one_column_per_site_one_count_per_character] a1 == len(charToIndex)
+//@   call asr.parsimonyUPPASS [the_up_pass_starts_at_the_root] a0 == t.root && a1 == nil && a3 == seqs && a4 == nsteps && a5 == charToIndex
+//@   call asr.parsimonyDOWNPASS [the_down_pass_runs_for_downpass_and_deltran_resolving_at_random_only_as_the_last_pass] (algo == ALGO_DOWNPASS || algo == ALGO_DELTRAN) && a0 == t.root && a1 == nil && a3 == seqs && a4 == upseqs && a5 == charToIndex && a6 == (algo == ALGO_DOWNPASS && randomResolve)
+//@   call asr.parsimonyDELTRAN [deltran_refines_after_the_down_pass] algo == ALGO_DELTRAN && a0 == t.root && a1 == nil && a3 == seqs && a4 == charToIndex && a5 == randomResolve && ghost(ncalls_parsimonyDOWNPASS) == old(ghost(ncalls_parsimonyDOWNPASS)) + 1
+//@   call asr.parsimonyACCTRAN [acctran_refines_right_after_the_up_pass] algo == ALGO_ACCTRAN && a0 == t.root && a1 == nil && a3 == seqs && a4 == charToIndex && a5 == randomResolve && ghost(ncalls_parsimonyDOWNPASS) == old(ghost(ncalls_parsimonyDOWNPASS))
+//@   call asr.assignSequencesToTree [the_comments_are_written_from_the_final_table_and_the_alphabet] a0 == t && a1 == seqs && a2 == alphabet && ghost(ncalls_parsimonyUPPASS) == old(ghost(ncalls_parsimonyUPPASS)) + 1
+//@   ensures [an_unknown_algorithm_is_an_error] algo != ALGO_DELTRAN && algo != ALGO_ACCTRAN && algo != ALGO_DOWNPASS ==> result1 != nil
+//@   loop 1
+//@     invariant [every_index_so_far_points_back_at_its_character] forall c uint8 :: {has(charToIndex, c)} {charToIndex[c]} has(charToIndex, c) ==> 0 <= charToIndex[c] && charToIndex[c] <= rangeindex && alphabet[charToIndex[c]] == c
+//@     invariant [every_character_so_far_has_an_index] forall k int :: {alphabet[k]} 0 <= k && k <= rangeindex ==> has(charToIndex, alphabet[k])
+//@   loop 2
+//@     invariant [tables_have_one_row_per_node] len(seqs) == len(nodes) && len(upseqs) == len(nodes) && arr(seqs) != arr(upseqs)
+
+// NewAncestralSequence: negative sizes are an error; otherwise a fresh sequence with one state per site, each with one
+// zero count per character, in storage of its own
+//@ func asr.NewAncestralSequence
+//@   allocates AncestralSequence, []AncestralState, []float64, iface, []any
+//@   assigns nothing
+//@   ensures [negative_sizes_are_an_error] length < 0 || alphabetlength < 0 ==> result0 == nil && result1 != nil
+//@   ensures [otherwise_a_fresh_sequence_of_that_length] length >= 0 && alphabetlength >= 0 ==> result1 == nil && result0 != nil && fresh(result0) && len(result0.seq) == length && fresh_arr(result0.seq)
+//@   ensures [one_count_per_character_at_every_site] length >= 0 && alphabetlength >= 0 ==> (forall k int :: {result0.seq[k]} 0 <= k && k < length ==> len(result0.seq[k].counts) == alphabetlength && fresh_arr(result0.seq[k].counts))
+//@   ensures [sites_do_not_share_their_counts] length >= 0 && alphabetlength >= 0 ==> (forall k int, j int :: {result0.seq[k], result0.seq[j]} 0 <= k && k < j && j < length ==> arr(result0.seq[k].counts) != arr(result0.seq[j].counts))
+//@   loop 1
+//@     assigns elems(seq.seq)
+//@     invariant [shape] 0 <= i && i <= length && seq != nil && fresh(seq) && len(seq.seq) == length && fresh_arr(seq.seq) && alphabetlength >= 0
+//@     invariant [one_count_per_character_so_far] forall k int :: {seq.seq[k]} 0 <= k && k < i ==> len(seq.seq[k].counts) == alphabetlength && fresh_arr(seq.seq[k].counts) && arr(seq.seq[k].counts) != arr(seq.seq)
+//@     invariant [sites_do_not_share_their_counts] forall k int, j int :: {seq.seq[k], seq.seq[j]} 0 <= k && k < j && j < i ==> arr(seq.seq[k].counts) != arr(seq.seq[j].counts)
+
+// assignSequencesToTree (property C12, "states written as node comments"): for every node the text is rebuilt from the
+// node's own row: per site exactly the characters with a positive count, a star when there is none, the set put between
+// braces exactly when it has more than one member; the text is added as a comment of that node
+//@ func asr.assignSequencesToTree
+//@   flag noframe
+//@   flag countcalls
+//@   requires t != nil
+//@   requires [one_row_per_node_identifier_no_wider_than_the_alphabet] (forall m *tree.Node :: {m.id} allocated(m) ==> 0 <= m.id && m.id < len(seqs) && seqs[m.id] != nil) && (forall k int, j int :: {seqs[k].seq[j]} 0 <= k && k < len(seqs) && 0 <= j && j < len(seqs[k].seq) ==> len(seqs[k].seq[j].counts) <= len(alphabet))
+//@   call (*bytes.Buffer).WriteByte [a_character_is_written_by_its_own_code_only_when_its_count_is_positive] a1 == alphabet[rangeindex + 1] && state.counts[rangeindex + 1] > 0.0
+//@   call (*bytes.Buffer).WriteRune [a_star_for_an_empty_set_braces_around_a_set_of_several] (a1 == 42 && nb == 0) || ((a1 == 123 || a1 == 125) && nb > 1)
+//@   call (*tree.Node).AddComment [the_text_becomes_a_comment_of_the_node_whose_row_was_read] a0 == n && ancseq == seqs[n.id]
+//@   loop 1
+//@     step [per_node_the_text_is_started_afresh_and_one_comment_is_added] ghost(ncalls_AddComment) == atHead(ghost(ncalls_AddComment)) + 1 && ghost(ncalls_String) == atHead(ghost(ncalls_String)) + 1
+//@   loop 2
+//@     step [per_site_the_set_is_started_afresh_and_copied_once_between_as_many_opening_as_closing_braces] ghost(ncalls_Write) == atHead(ghost(ncalls_Write)) + 1 && ghost(ncalls_Bytes) == atHead(ghost(ncalls_Bytes)) + 1 && ghost(ncalls_WriteRune) == atHead(ghost(ncalls_WriteRune)) + (nb == 0 ? 1 : 0) + (nb > 1 ? 2 : 0)
+//@   loop 3
+//@     step [every_character_with_a_positive_count_is_written_and_counted] next(nb) == nb + (state.counts[rangeindex + 1] > 0.0 ? 1 : 0) && ghost(ncalls_WriteByte) == atHead(ghost(ncalls_WriteByte)) + (state.counts[rangeindex + 1] > 0.0 ? 1 : 0)
